@@ -9,16 +9,19 @@ TLC design level : Aggregator.tla (K reporters, bounded queue, blocking / droppi
 M2 (spec->code)  : PhoutCases.tla enumerates the abstract case space of the phout line format with the
                    expected columns computed by TLC (PhoutLine); `vdrive aggcases` renders each case
                    through the real phout aggregator; expected == observed columns.
-M1 (code->spec)  : `vdrive agg` drives the real phout (afero mem file) and jsonlines (buffer sink)
-                   aggregators with K goroutines / queue sizes / flush intervals / seeded cancel, and full
-                   engine runs with mock guns; TraceAggregator.tla checks every recorded step.
+M1 (code->spec)  : `vdrive agg` drives the real phout / jsonlines / log / discard / test aggregators (made by their
+                   constructors or by config.Decode through the registered factories, on recording - and
+                   fault-injecting - sinks) with K goroutines / queue sizes / flush intervals / seeded cancel, and
+                   full engine runs with mock guns; TraceAggregator.tla checks every recorded step.
 Process level    : `vdrive aggsig` stops real pandora processes (vpandora = real cli.Run + counting
-                   wrapper) with SIGINT / SIGTERM at seeded instants; TraceShutdown.tla checks the final
-                   predicate of Shutdown.tla on what was left on disk.
+                   wrapper) with SIGINT / SIGTERM (once, twice, during start-up, with a blocked or crawling sink)
+                   or SIGHUP / SIGQUIT at seeded instants, or lets them write to /dev/full; TraceShutdown.tla
+                   checks the final predicates of Shutdown.tla on what was left on disk.
 """
 import concurrent.futures
 import json
 import os
+import re
 import shutil
 import subprocess
 import time
@@ -28,32 +31,39 @@ PID = "C06"
 
 MANIFEST = dict(
     category="model_checking",
-    technique="explicit TLA+ models of the aggregator Run loop and of the CLI shutdown checked exhaustively with "
-              "TLC (with negative controls), bound to the code by trace validation of real aggregator executions "
-              "and of real pandora processes stopped by signals, and by replaying the TLC-enumerated phout "
-              "format case space through the real aggregator",
+    technique="explicit TLA+ models of the aggregator Run loop (every shipped kind, working and failing sinks) and of the "
+              "CLI shutdown checked exhaustively with TLC (with negative controls), bound to the code by trace validation "
+              "of real aggregator executions (made by constructors and through the registered plugin factories) and of "
+              "real pandora processes stopped by signals, and by replaying the TLC-enumerated phout format case space "
+              "through the real aggregator",
     design_ref="DESIGN.md §4 C06",
-    text="Aggregator.tla models reporters, the bounded queue (blocking phout / dropping encoder aggregators) and "
-         "the Run loop statement by statement; TLC proves within K=2x2 (3x2 thorough), Q in {1,2} that at Run return "
-         "the sink holds a permutation of the non-dropped reports, lines + drops = reports, flushed and closed, at "
-         "every cancel position after the last report. Shutdown.tla composes main/engine/pool/await/instances/"
-         "aggregator/Exit with a signal at every position: exited => flushed, closed, lines + drops = reports made "
-         "until the stop. The real code answers to the same operators (spec/Phout.tla): every line the real "
-         "aggregators hand to their sink must be PhoutLine(s) / decode to s of a not yet written report, the "
-         "counts must add up at Run return, and real processes stopped by SIGINT/SIGTERM must leave "
-         "lines + drops between the reports returned before the signal and the reports begun before exit. "
+    text="Aggregator.tla models reporters, the bounded queue (Mode: blocking phout/log, dropping encoder aggregators, "
+         "discard, in-memory test) and the Run loop statement by statement; TLC proves within K=2x2 (3x2 thorough), Q in "
+         "{1,2} that at Run return the sink holds a permutation of the non-dropped reports, lines + drops = reports, "
+         "flushed and closed, at every cancel position after the last report; with a sink that may fail (write error, "
+         "partial write, short count, failing Close) NoSilentLoss: the run returns the error, a run without error is "
+         "complete. Shutdown.tla composes main/engine/pool/await/instances/aggregator/Exit with signals at every "
+         "position (before signal.Notify, first, second, untrapped), the interrupt / tasks timers, slow or blocking sinks "
+         "and instances parked in a blocking Report: an exit may lack data ONLY after one of four forced causes "
+         "(ExitComplete with the exact Exempt set), every exit invents nothing, a stopped process ends (liveness). The "
+         "real code answers to the same operators (spec/Phout.tla): every line the real aggregators hand to their sink "
+         "must be PhoutLine(s) / decode to s of a not yet written report (tags with TAB/LF/CR as TagText says), the "
+         "counts must add up at Run return, a failing recording sink must make Run fail, and real processes stopped by "
+         "SIGINT/SIGTERM (one, two, during start-up, under back-pressure, with the grpc gun, with pools of different "
+         "kinds) or SIGHUP/SIGQUIT, or writing to /dev/full, must satisfy the final predicates. "
          "Beyond the statement: PoolAgg.tla composes the engine's await loop with the aggregator (the aggregator is "
          "cancelled only after every instance result was awaited; exactly which late reports a provider failure or "
          "user cancel may lose), validated on real engine runs whose life-cycle hooks are merged into the "
          "report/line trace (TracePoolAgg.tla); Sink.tla / TraceSink.tla: result files are created/truncated, never "
-         "appended, closed once (two pools with ONE file name tear and lose lines: known finding); the discard and "
-         "log aggregators and the buffer-size / flush-interval option bounds as further cases of Aggregator.tla.",
-    note="Bounds: design K<=3 reporters x 2 samples, Q<=2; conformance K in 1..8, queue 1..64, flush 1 ms..1 s, "
-         "int32 field values, tags without TAB/LF (phout), timestamps 2001..2038. Trusted: the syntactic line "
-         "splitter and the recording sinks of harness/cmd/vdrive/agg*.go, the counting wrapper of vpandora. Not "
-         "decided: sink write errors; reports made after the stop by shots still in flight (core.Aggregator "
-         "documents that they may be lost) are bounded, not required; forced exits (second signal, interrupt "
-         "timeout) are exempt by design.",
+         "appended, closed once (two pools with ONE file name tear and lose lines: known finding).",
+    note="Bounds: design K<=3 reporters x 2 samples, Q<=2; conformance K in 1..8, queue 1..64, flush 0 / 1 ms..1 s / 1 h, "
+         "buffer-size 0 / 1 / 4 KiB / 100 KB, int32 field values, timestamps 2001..2038. Trusted: the syntactic line "
+         "splitter and the recording / fault-injecting sinks of harness/cmd/vdrive/agg*.go, the counting wrapper of "
+         "vpandora. Fixed while building this check: SIGINT/SIGTERM exit without Engine.Wait(); swallowed final-flush / "
+         "close errors of phout and of the jsonlines encoder; TAB/LF/CR of a tag tearing the phout line. Not decided: "
+         "reports made after the stop by shots still in flight (core.Aggregator documents that they may be lost) are "
+         "bounded, not required; forced exits (second signal, a timer, SIGHUP/SIGQUIT, a signal before signal.Notify) "
+         "are exempt by design and only bounded; the µs window before signal.Notify could not be hit on the real binary.",
 )
 
 
@@ -75,13 +85,17 @@ def build():
     vlib.gen_gomod(src)
     outs = {}
     t0 = time.time()
+    # one go invocation for both commands: one action graph, shared packages compiled once
+    bindir = os.path.join(d, "bin")
+    os.makedirs(bindir)
+    p = subprocess.run(["go", "build", "-tags", "verif", "-o", bindir + os.sep, "./cmd/vdrive", "./cmd/vpandora"], cwd=src, env=vlib.go_env(),
+                       stdout=subprocess.PIPE, stderr=subprocess.STDOUT, text=True, timeout=1800)
+    if p.returncode != 0:
+        raise vlib.MachineryError("build of vdrive / vpandora failed\n%s" % p.stdout[-6000:])
     for name in ("vdrive", "vpandora"):
-        out = os.path.join(d, name)
-        p = subprocess.run(["go", "build", "-tags", "verif", "-o", out, "./cmd/" + name], cwd=src, env=vlib.go_env(),
-                           stdout=subprocess.PIPE, stderr=subprocess.STDOUT, text=True, timeout=1200)
-        if p.returncode != 0:
-            raise vlib.MachineryError("build of %s failed\n%s" % (name, p.stdout[-6000:]))
-        outs[name] = out
+        outs[name] = os.path.join(bindir, name)
+        if not os.path.exists(outs[name]):
+            raise vlib.MachineryError("go build did not produce %s" % name)
     vlib.log("vdrive + vpandora built in %.1fs" % (time.time() - t0))
     _bins = (outs["vdrive"], outs["vpandora"])
     return _bins
@@ -89,43 +103,93 @@ def build():
 
 # ------------------------------------------------------------------------------------------ design level
 
+# design-level TLC runs: (module, config, in the quick tier too).  Every JVM start costs 1-2 s on the idle machine and
+# 10-20 s at load average > 100, so the quick tier runs a representative slice (one exhaustive config and one negative
+# control per mechanism), the thorough tier all of them.
+POS = [
+    ("AggregatorMC", "Aggregator_exh.cfg", True), ("AggregatorMC", "Aggregator_exh_block.cfg", True),
+    ("AggregatorMC", "Aggregator_exh_q2.cfg", False), ("AggregatorMC", "Aggregator_exh_block_q2.cfg", False),
+    ("AggregatorMC", "Aggregator_exh_discard.cfg", True), ("AggregatorMC", "Aggregator_exh_memory.cfg", False),
+    # a sink that fails (write error, partial write, short count, close error): the run FAILS, nothing is lost
+    # silently - phout as fixed (the periodic flush ignores the error, the writer keeps it), encoder aggregators
+    ("AggregatorMC", "Aggregator_exh_fault_block.cfg", True), ("AggregatorMC", "Aggregator_exh_fault_drop.cfg", True),
+    ("AggregatorMC", "Aggregator_exh_fault_drop_q2.cfg", False), ("AggregatorMC", "Aggregator_exh_big.cfg", False),
+    # CLI shutdown: signal before signal.Notify, untrapped signals, second signal, the timers, slow / blocking
+    # sink (back-pressure), instances parked in a blocking Report: _slow_small = 2x1 with two-step writes,
+    # _fast = 2x2 with an instantaneous sink, the others 2x2 / 3x2 with two-step writes
+    ("ShutdownMC", "Shutdown_exh_slow_small.cfg", True), ("ShutdownMC", "Shutdown_exh_drop_slow_small.cfg", True),
+    ("ShutdownMC", "Shutdown_exh_fast.cfg", True), ("ShutdownMC", "Shutdown_exh_drop_fast.cfg", False),
+    ("ShutdownMC", "Shutdown_exh.cfg", False), ("ShutdownMC", "Shutdown_exh_drop.cfg", False),
+    ("ShutdownMC", "Shutdown_exh_q2.cfg", False), ("ShutdownMC", "Shutdown_exh_big.cfg", False),
+    # once told to stop the process ends: thanks to the timers also with a sink that blocks for ever or an
+    # instance parked for ever in phout's Report; jsonlines on a working sink needs no timer
+    ("ShutdownMC", "Shutdown_live.cfg", False), ("ShutdownMC", "Shutdown_live_drop.cfg", False),
+    ("ShutdownMC", "Shutdown_live_drop_fastsink_notimeout.cfg", False),
+    # engine await loop composed with the aggregator (PoolAgg.tla)
+    ("PoolAggMC", "PoolAgg_exh_nofault.cfg", True), ("PoolAggMC", "PoolAgg_exh_small.cfg", True),
+    ("PoolAggMC", "PoolAgg_exh_schedend.cfg", False),
+    ("PoolAggMC", "PoolAgg_exh.cfg", False), ("PoolAggMC", "PoolAgg_exh_block.cfg", False),
+    ("PoolAggMC", "PoolAgg_exh_small2.cfg", False), ("PoolAggMC", "PoolAgg_live_nofault.cfg", False),
+    ("PoolAggMC", "PoolAgg_live.cfg", False), ("PoolAggMC", "PoolAgg_exh_big.cfg", False),
+    # result destinations (Sink.tla): own files as coded; what a repair of the shared file must establish
+    ("SinkMC", "Sink_exh.cfg", True), ("SinkMC", "Sink_repair.cfg", False),
+]
+NEG = [
+    ("AggregatorMC", "Aggregator_neg_nodrain.cfg", True), ("AggregatorMC", "Aggregator_neg_noflush.cfg", True),
+    ("AggregatorMC", "Aggregator_neg_nocount.cfg", True), ("AggregatorMC", "Aggregator_neg_late.cfg", False),
+    # the code as found: phout dropped the error of its final flush / of Close, jsonEncoder.Flush bufio's error
+    ("AggregatorMC", "Aggregator_neg_swallow_final.cfg", True), ("AggregatorMC", "Aggregator_neg_swallow_close.cfg", True),
+    ("AggregatorMC", "Aggregator_neg_swallow_tick.cfg", True), ("AggregatorMC", "Aggregator_neg_memory_reach.cfg", False),
+    # the flush tick consumes the drop counter (seed C06-9)
+    ("AggregatorMC", "Aggregator_neg_tickresets.cfg", False),
+    # a drop that is not counted breaks the drop count of failed runs too (FailedRunStillCounts is not vacuous)
+    ("AggregatorMC", "Aggregator_neg_nocount_fault.cfg", False),
+    ("ShutdownMC", "Shutdown_neg_nowait.cfg", True), ("ShutdownMC", "Shutdown_neg_reach.cfg", False),
+    # a first signal while the tasks of a FAILED run are awaited ends the process (seed C06-6)
+    ("ShutdownMC", "Shutdown_neg_errsig.cfg", True),
+    # every exempt cause of a forced exit really loses data (the list in ExitComplete is minimal) ...
+    ("ShutdownMC", "Shutdown_neg_early.cfg", True), ("ShutdownMC", "Shutdown_neg_untrapped.cfg", True),
+    ("ShutdownMC", "Shutdown_neg_second.cfg", True), ("ShutdownMC", "Shutdown_neg_timeout.cfg", True),
+    # ... an unforced complete exit of a run whose instance was parked by back-pressure at the signal is reachable
+    ("ShutdownMC", "Shutdown_neg_bpreach.cfg", False),
+    # without the timers a stopped process may never end (instance parked for ever in a blocking Report; a sink
+    # that blocks for ever)
+    ("ShutdownMC", "Shutdown_neg_live_notimeout.cfg", True), ("ShutdownMC", "Shutdown_neg_live_notimeout_slow.cfg", False),
+    ("PoolAggMC", "PoolAgg_neg_early.cfg", True),
+    # out of ammo during the start-up calls runCancel() instead of instanceStartCancel() (seed C06-8)
+    ("PoolAggMC", "PoolAgg_neg_ooa.cfg", True), ("PoolAggMC", "PoolAgg_neg_ooa_start.cfg", False),
+    ("PoolAggMC", "PoolAgg_neg_reach.cfg", False), ("PoolAggMC", "PoolAgg_neg_early_complete.cfg", False),
+    ("PoolAggMC", "PoolAgg_neg_ooa_complete.cfg", False),
+    ("SinkMC", "Sink_neg_samefile.cfg", True), ("SinkMC", "Sink_neg_append_midline.cfg", False), ("SinkMC", "Sink_neg_latetrunc.cfg", False),
+]
+
+
+# millions of states: more workers, started first
+BIG = ("Shutdown_exh_big.cfg", "PoolAgg_exh_big.cfg", "PoolAgg_exh.cfg", "PoolAgg_exh_block.cfg", "PoolAgg_live.cfg",
+       "PoolAgg_neg_ooa_complete.cfg")
+
+
 def design(thorough):
-    pos = [("AggregatorMC", "Aggregator_exh.cfg"), ("AggregatorMC", "Aggregator_exh_block.cfg"),
-           ("AggregatorMC", "Aggregator_exh_q2.cfg"), ("AggregatorMC", "Aggregator_exh_block_q2.cfg"),
-           ("ShutdownMC", "Shutdown_exh.cfg"), ("ShutdownMC", "Shutdown_exh_drop.cfg"),
-           # engine await loop composed with the aggregator (PoolAgg.tla)
-           ("PoolAggMC", "PoolAgg_exh_nofault.cfg"), ("PoolAggMC", "PoolAgg_exh_schedend.cfg"),
-           ("PoolAggMC", "PoolAgg_exh_small.cfg"),
-           # result destinations (Sink.tla): own files as coded; what a repair of the shared file must establish
-           ("SinkMC", "Sink_exh.cfg"), ("SinkMC", "Sink_repair.cfg"),
-           ("AggregatorMC", "Aggregator_exh_discard.cfg")]
-    if thorough:
-        pos += [("AggregatorMC", "Aggregator_exh_big.cfg"), ("ShutdownMC", "Shutdown_exh_q2.cfg"),
-                ("ShutdownMC", "Shutdown_exh_big.cfg"),
-                ("PoolAggMC", "PoolAgg_exh.cfg"), ("PoolAggMC", "PoolAgg_exh_block.cfg"),
-                ("PoolAggMC", "PoolAgg_exh_small2.cfg"), ("PoolAggMC", "PoolAgg_live_nofault.cfg"),
-                ("PoolAggMC", "PoolAgg_live.cfg"), ("PoolAggMC", "PoolAgg_exh_big.cfg")]
-    neg = [("AggregatorMC", "Aggregator_neg_nodrain.cfg"), ("AggregatorMC", "Aggregator_neg_noflush.cfg"),
-           ("AggregatorMC", "Aggregator_neg_nocount.cfg"), ("AggregatorMC", "Aggregator_neg_late.cfg"),
-           ("ShutdownMC", "Shutdown_neg_nowait.cfg"), ("ShutdownMC", "Shutdown_neg_reach.cfg"),
-           # a first signal while the tasks of a FAILED run are awaited ends the process (seed C06-6)
-           ("ShutdownMC", "Shutdown_neg_errsig.cfg"),
-           ("PoolAggMC", "PoolAgg_neg_early.cfg"),
-           # out of ammo during the start-up calls runCancel() instead of instanceStartCancel() (seed C06-8)
-           ("PoolAggMC", "PoolAgg_neg_ooa.cfg"), ("PoolAggMC", "PoolAgg_neg_ooa_start.cfg"),
-           ("SinkMC", "Sink_neg_samefile.cfg"), ("SinkMC", "Sink_neg_append_midline.cfg"), ("SinkMC", "Sink_neg_latetrunc.cfg")]
-    if thorough:
-        neg += [("PoolAggMC", "PoolAgg_neg_reach.cfg"), ("PoolAggMC", "PoolAgg_neg_early_complete.cfg"),
-                ("PoolAggMC", "PoolAgg_neg_ooa_complete.cfg")]
+    pos = [(m, c) for m, c, q in POS if q or thorough]
+    neg = [(m, c) for m, c, q in NEG if q or thorough]
     vlib.spec_copy()
 
     def one(mc):
-        return mc, vlib.tlc(mc[0], mc[1], workers=2, heap="3g", timeout=3000, deadlock=False)
+        big = mc[1] in BIG
+        r = vlib.tlc(mc[0], mc[1], workers=6 if big else 2, heap="6g" if big else "3g", timeout=3000, deadlock=False)
+        # vlib's parser knows 'Temporal properties were violated'; this TLC prints 'Temporal property X was violated'
+        # (additive helper kept here because lib/vlib.py is shared)
+        m = re.search(r"Temporal property (\S+) was violated", r.out)
+        if m and r.kind in ("tlc-error", ""):
+            r.error, r.violation, r.kind, r.what = False, True, "temporal", m.group(1)
+        return mc, r
 
     states = trans = 0
     per = {}
-    with concurrent.futures.ThreadPoolExecutor(max_workers=4) as ex:
-        for (mod, cfg), r in ex.map(one, pos + neg):
+    # the long ones first
+    order = sorted(pos + neg, key=lambda mc: (0 if mc[1] in BIG else 1 if mc[1].startswith(("Shutdown_exh", "PoolAgg_exh", "Shutdown_live", "PoolAgg_live")) else 2))
+    with concurrent.futures.ThreadPoolExecutor(max_workers=6) as ex:
+        for (mod, cfg), r in ex.map(one, order):
             if (mod, cfg) in pos:
                 vlib.tlc_must_pass(r, cfg)
                 states += r.distinct
@@ -136,13 +200,15 @@ def design(thorough):
                         "violated": r.what if r.violation else None}
     if thorough:
         # every action of the design modules must have fired (an action that never fires is a modelling hole)
-        import re
-        for mod, cfg in (("AggregatorMC", "Aggregator_exh.cfg"), ("ShutdownMC", "Shutdown_exh_drop.cfg"),
-                         ("PoolAggMC", "PoolAgg_exh_small2.cfg")):
+        # (module, config, actions that cannot fire under that config's constants)
+        for mod, cfg, na in (("AggregatorMC", "Aggregator_exh.cfg", ()), ("AggregatorMC", "Aggregator_exh_fault_block.cfg", ()),
+                             ("ShutdownMC", "Shutdown_exh_drop_slow_small.cfg", ("ReportBlocks", "Unblock")),
+                             ("ShutdownMC", "Shutdown_exh_slow_small.cfg", ()),
+                             ("PoolAggMC", "PoolAgg_exh_small2.cfg", ())):
             r = vlib.tlc(mod, cfg, workers=4, heap="4g", timeout=3000, deadlock=False, coverage=True)
             vlib.tlc_must_pass(r, cfg + " (coverage)")
             acts = re.findall(r"^<(\w+) line \d+, col \d+ to line \d+, col \d+ of module \w+>: (\d+):(\d+)", r.out, re.M)
-            dead = sorted({a for a, dist, gen in acts if int(gen) == 0})
+            dead = sorted({a for a, dist, gen in acts if int(gen) == 0 and a not in na})
             if not acts or dead:
                 raise vlib.MachineryError("%s: actions never taken: %s" % (cfg, dead or "no coverage output"))
             per[cfg + " coverage"] = {a: int(gen) for a, dist, gen in acts}
@@ -229,10 +295,15 @@ def describe_agg(evs, ev, inv, bad):
     nline = sum(1 for e in evs if e["ev"] in ("Line", "JLine", "LogLine", "BadLine"))
     end = next((e for e in evs if e["ev"] == "RunEnd"), {})
     brief = {k: ev.get(k) for k in ("ev", "c", "raw", "s", "dropped", "err", "partial", "lines") if k in ev}
-    return ("agg kind=%s mode=%s inv=%s bad=%s" % (head.get("kind"), head.get("mode"), inv, bad),
-            "real %s aggregator (K=%s queue=%s flush=%sms ids=%s mode %s): %d reports, %d lines, dropped=%s: %s at %s" % (
-                head.get("kind"), head.get("k"), head.get("q"), head.get("flush_ms"), head.get("ids"), head.get("mode"),
-                nrep, nline, end.get("dropped"), bad, brief))
+    fault = head.get("fault") or ""
+    made = "%s %s" % (head.get("build") or "ctor", head.get("type") or head.get("kind"))
+    if head.get("build") == "factory":
+        made = "config.Decode of {type: %s%s} (%s map shape)" % (head.get("type"), ", sink: " + head["sink"] if head.get("sink") else "", head.get("shape"))
+    return ("agg kind=%s mode=%s%s inv=%s bad=%s" % (head.get("kind"), head.get("mode"), " fault=" + fault if fault else "", inv, bad),
+            "real %s aggregator made by %s (K=%s queue=%s flush=%sms ids=%s mode %s%s): %d reports, %d lines, dropped=%s, Run returned %r: %s at %s" % (
+                head.get("kind"), made, head.get("k"), head.get("q"), head.get("flush_ms"), head.get("ids"), head.get("mode"),
+                "; the sink fails from its write no. %s on: %s" % (head.get("fail_at"), fault) if fault else "",
+                nrep, nline, end.get("dropped"), end.get("err"), bad, brief))
 
 
 def describe_sig(evs, ev, inv, bad):
@@ -249,14 +320,23 @@ def describe_sig(evs, ev, inv, bad):
                     ex.get("failed_returned_before"), ex.get("entered"), ex.get("lines"), ex.get("dropped"),
                     ex.get("last_complete"), ex.get("agg_returned"), ex.get("another_signal"), ex.get("signals"),
                     ex.get("status"), bad))
-    return ("signal sig=%s kind=%s pipe=%s inv=%s bad=%s" % (st.get("sig"), st.get("kind"), st.get("pipe"), inv, bad),
-            "pandora (%s, %s rps, %s instances in %s pool(s), %s sink, GOMAXPROCS=%s) stopped with SIG%s %s ms into the run: %s reports had returned "
-            "before the signal, %s begun at exit; result has %s lines (+%s counted drops), last line complete=%s, "
-            "aggregator returned before exit=%s, exit status %s: %s" % (
+    scen = st.get("scen") or ""
+    how = {"second": "; a second signal followed %s ms later" % st.get("second_ms"),
+           "timeout": "; the sink takes no bytes any more from the signal on",
+           "startup": " (sent %s ms after the process was started, without waiting for a report)" % st.get("after_ms"),
+           "full": "; the result destination is /dev/full", "nodir": "; the result destination lies in a directory that does not exist",
+           "grpc": "; grpc gun", "mixed": "; one phout and one jsonlines pool",
+           "backpr": "; queue 16, 4 KiB buffer, a pipe slower than the load (back-pressure)"}.get(scen, "")
+    return ("signal%s sig=%s kind=%s pipe=%s inv=%s bad=%s" % (" scen=" + scen if scen else "", st.get("sig"), st.get("kind"), st.get("pipe"), inv, bad),
+            "pandora (%s, %s rps, %s instances in %s pool(s), %s sink, GOMAXPROCS=%s) stopped with SIG%s %s ms into the run%s: %s reports had returned "
+            "before the signal, %s begun at exit; result has %s lines (+%s counted drops, %s malformed), last line complete=%s, "
+            "aggregator returned before exit=%s (its error: %r), exit status %s%s after %s ms, log says timeout=%s another-signal=%s: %s" % (
                 st.get("kind"), st.get("rps"), st.get("inst"), st.get("pools"), "slow pipe" if st.get("pipe") else "file",
                 st.get("gomaxprocs") or "default",
-                st.get("sig"), st.get("after_ms"), sg.get("returned_before"), ex.get("entered"), ex.get("lines"),
-                ex.get("dropped"), ex.get("last_complete"), ex.get("agg_returned"), ex.get("status"), bad))
+                st.get("sig"), st.get("after_ms"), how, sg.get("returned_before"), ex.get("entered"), ex.get("lines"),
+                ex.get("dropped"), ex.get("malformed"), ex.get("last_complete"), ex.get("agg_returned"), ex.get("agg_err"), ex.get("status"),
+                " (killed by the default action of '%s')" % ex.get("killed") if ex.get("killed") else "", ex.get("elapsed_ms"),
+                ex.get("timeout_exit"), ex.get("another_signal"), bad))
 
 
 def sink_runs(v, vdrive, d, n):
@@ -311,44 +391,57 @@ def machinery_events(rows, what):
 def run(tier, v):
     thorough = tier == "thorough"
     d = vlib.scratch()
-    with concurrent.futures.ThreadPoolExecutor(max_workers=2) as ex:
+    sig_path = os.path.join(d, "aggsig.ndjson")
+    agg_path = os.path.join(d, "agg.ndjson")
+    nsig = 500 if thorough else 16
+    nruns, neng, ncan, nstress, nprov, nother, nstaged, nfault = (5000, 300, 1500, 40, 700, 400, 400, 1200) if thorough else (300, 24, 40, 6, 24, 30, 20, 80)
+
+    # everything that does not depend on something else runs at the same time: the design-level TLC runs, the
+    # process-level driver (mostly waiting), the in-process driver + its two trace validations, the format cases,
+    # the result-destination runs
+    def in_process(vdrive):
+        vlib.run_driver(vdrive, ["agg", "-out", agg_path, "-runs", str(nruns), "-engine", str(neng), "-cancel", str(ncan),
+                                 "-dropstress", str(nstress), "-provfail", str(nprov), "-other", str(nother), "-staged", str(nstaged),
+                                 "-fault", str(nfault)], timeout=3000)
+        rows = vlib.read_ndjson(agg_path)
+        # real engine runs (hooks of the await loop merged with report / line events) answer to PoolAgg's trace
+        # specification, which re-uses every action of TraceAggregator; direct runs to TraceAggregator itself
+        eng_runs = {r["run"] for r in rows if r["ev"] == "Run" and r["mode"] in ENGINE_MODES}
+        with concurrent.futures.ThreadPoolExecutor(max_workers=2) as ex2:
+            f1 = ex2.submit(validate, v, "TraceAggregator", [r for r in rows if r["run"] not in eng_runs], d, describe_agg, "agg")
+            f2 = ex2.submit(validate, v, "TracePoolAgg", [r for r in rows if r["run"] in eng_runs], d, describe_agg, "poolagg")
+            a1, a2 = f1.result(), f2.result()
+        return rows, a1, a2
+
+    def process_level(vdrive, vpandora):
+        vlib.run_driver(vdrive, ["aggsig", "-vpandora", vpandora, "-out", sig_path, "-runs", str(nsig),
+                                 "-par", "6" if thorough else "4", "-fail", "80" if thorough else "4",
+                                 "-scen", "143" if thorough else "13", "-long", "1" if thorough else "0"], 3000)
+        srows = vlib.read_ndjson(sig_path)
+        machinery_events(srows, "aggsig")
+        return srows, validate(v, "TraceShutdown", srows, d, describe_sig, "signal")
+
+    vlib.spec_copy()
+    with concurrent.futures.ThreadPoolExecutor(max_workers=6) as ex:
         fb = ex.submit(build)
         fd = ex.submit(design, thorough)
         vdrive, vpandora = fb.result()
-        # process level runs concurrently with the design-level TLC runs (it is mostly waiting)
-        sig_path = os.path.join(d, "aggsig.ndjson")
-        nsig = 500 if thorough else 16
-        fs = ex.submit(vlib.run_driver, vdrive, ["aggsig", "-vpandora", vpandora, "-out", sig_path, "-runs", str(nsig),
-                                                  "-par", "6" if thorough else "4", "-fail", "80" if thorough else "4"], 3000)
+        fs = ex.submit(process_level, vdrive, vpandora)
+        fa = ex.submit(in_process, vdrive)
+        fc = ex.submit(format_cases, v, vdrive, d)
+        fk = ex.submit(sink_runs, v, vdrive, d, 60 if thorough else 9)
+        rows, (agg_validated, agg_states), (pa_validated, pa_states) = fa.result()
+        ncases, cstates, ctrans, csamples = fc.result()
+        sink_cov = fk.result()
+        srows, (sig_validated, sig_states) = fs.result()
         states, trans, per = fd.result()
-        fs.result()
-    ncases, cstates, ctrans, csamples = format_cases(v, vdrive, d)
-    # M1 in-process
-    agg_path = os.path.join(d, "agg.ndjson")
-    nruns, neng, ncan, nstress, nprov, nother, nstaged = (5000, 300, 1500, 40, 700, 400, 400) if thorough else (300, 24, 40, 4, 24, 30, 20)
-    vlib.run_driver(vdrive, ["agg", "-out", agg_path, "-runs", str(nruns), "-engine", str(neng), "-cancel", str(ncan),
-                             "-dropstress", str(nstress), "-provfail", str(nprov), "-other", str(nother), "-staged", str(nstaged)], timeout=3000)
-    rows = vlib.read_ndjson(agg_path)
-    # real engine runs (hooks of the await loop merged with report / line events) answer to PoolAgg's trace
-    # specification, which re-uses every action of TraceAggregator; direct runs to TraceAggregator itself
-    eng_runs = {r["run"] for r in rows if r["ev"] == "Run" and r["mode"] in ENGINE_MODES}
-    with concurrent.futures.ThreadPoolExecutor(max_workers=2) as ex:
-        f1 = ex.submit(validate, v, "TraceAggregator", [r for r in rows if r["run"] not in eng_runs], d, describe_agg, "agg")
-        f2 = ex.submit(validate, v, "TracePoolAgg", [r for r in rows if r["run"] in eng_runs], d, describe_agg, "poolagg")
-        agg_validated, agg_states = f1.result()
-        pa_validated, pa_states = f2.result()
     agg_validated += pa_validated
     agg_states += pa_states
     nhooks = sum(1 for r in rows if r["ev"] == "Hook")
-    sink_cov = sink_runs(v, vdrive, d, 60 if thorough else 9)
     nrep = sum(1 for r in rows if r["ev"] == "Report") + sum(r["n"] for r in rows if r["ev"] == "Reports")
     nlines = sum(1 for r in rows if r["ev"] in ("Line", "JLine", "LogLine"))
     ndrop = sum(r["dropped"] for r in rows if r["ev"] == "RunEnd")
     droprun = sum(1 for r in rows if r["ev"] == "RunEnd" and r["dropped"] > 0)
-    # process level
-    srows = vlib.read_ndjson(sig_path)
-    machinery_events(srows, "aggsig")
-    sig_validated, sig_states = validate(v, "TraceShutdown", srows, d, describe_sig, "signal")
     exits = [r for r in srows if r["ev"] == "Exit"]
     sigs = {r["run"]: r for r in srows if r["ev"] == "Signal"}
     starts = {r["run"]: r for r in srows if r["ev"] == "Start"}
@@ -374,14 +467,27 @@ def run(tier, v):
                                       for m in ("normal", "late", "burst", "engine", "cancel", "provfail", "staged", "dropstress")},
                             "engine_runs_provider_failed_midway": nprov,
                             "kinds": {k: sum(1 for r in rows if r["ev"] == "Run" and r["kind"] == k)
-                                      for k in ("phout", "jsonlines", "log", "discard")}, "engine_hook_events": nhooks,
+                                      for k in ("phout", "jsonlines", "log", "discard", "test")}, "engine_hook_events": nhooks,
                             "engine_runs_validated_by_TracePoolAgg": pa_validated,
+                            "runs_with_failing_sink": {f: sum(1 for r in rows if r["ev"] == "Run" and r.get("fault") == f)
+                                                       for f in ("err", "partial", "short", "close")},
+                            "sink_failures_injected": sum(1 for r in rows if r["ev"] == "SinkFault" and r.get("first")),
+                            "made_by": {b: sum(1 for r in rows if r["ev"] == "Run" and r.get("build") == b) for b in ("ctor", "factory")},
+                            "factory_forms": sorted({"%s/%s/%s" % (r.get("type"), r.get("sink") or "-", r.get("shape"))
+                                                     for r in rows if r["ev"] == "Run" and r.get("build") == "factory"}),
                             "trace_spec_states": agg_states},
         "signal_runs": {"validated": sig_validated, "signalled": len(sigs), "self_ended": len(exits) - len(sigs),
                         "error_path_runs": sum(1 for r in srows if r["ev"] == "Start" and r.get("fail")),
                         "error_path_runs_signalled_while_awaiting_tasks": sum(1 for e in exits if starts[e["run"]].get("fail") and e.get("signals")),
                         "forced": sum(1 for e in exits if e.get("forced")),
-                        "late_reports_lost": sum(e["entered"] - e["lines"] - e["dropped"] for e in exits),
+                        "scenarios": {sc: sum(1 for r in srows if r["ev"] == "Start" and r.get("scen") == sc)
+                                      for sc in ("second", "timeout", "startup", "hup", "quit", "full", "nodir", "grpc", "mixed", "backpr")},
+                        "exits_by_interrupt_timeout": sum(1 for e in exits if e.get("timeout_exit")),
+                        "exits_by_second_signal": sum(1 for e in exits if e.get("another_signal") and e.get("signals", 0) >= 2),
+                        "killed_by_default_action": sum(1 for e in exits if e.get("killed")),
+                        "full_disk_runs_failed": sum(1 for e in exits if starts[e["run"]].get("scen") == "full" and e["status"] != 0),
+                        "late_reports_lost": sum(e["entered"] - e["lines"] - e["dropped"] for e in exits
+                                                 if not e.get("forced") and starts[e["run"]].get("scen") not in ("full", "nodir", "quit", "hup")),
                         "reports": sum(e["entered"] for e in exits), "trace_spec_states": sig_states},
         "format_cases": {"cases": ncases, "tlc_states": cstates},
         "result_destinations": sink_cov,
@@ -393,10 +499,11 @@ def run(tier, v):
     }
     return "model_checking", cov, [
         "the syntactic line splitter, the recording sinks and the counting wrapper record faithfully (harness/cmd/vdrive/agg.go, aggsig.go, harness/cmd/vpandora)",
-        "sinks do not fail (write errors are outside the property)",
+        "a sink that fails does so like the injected ones (error, partial write, short count, failing Close; ENOSPC of /dev/full)",
         "reports made after the stop instant by shots still in flight may be lost (documented in core.Aggregator); the check "
         "requires lines + drops >= reports returned before the signal was sent and <= reports begun before exit",
-        "forced exits (second signal, interrupt timeout exceeded) are exempt; none is provoked",
+        "forced exits (second signal, interrupt / tasks timeout exceeded, SIGHUP/SIGQUIT, a signal sent before any report had "
+        "returned that kills by default action) are exempt from completeness and only bounded; they are provoked on purpose",
     ]
 
 
